@@ -1,7 +1,12 @@
 """C16: NotifierDelay's methods translated from the current source (harness/pytr.py) and proved equal to Delay.Model.
 The HAL is part of the model's record: `alarm` (what updateNotifierAlarm programmed; None once stopNotifier ran) and
-`released` (cleanNotifier calls); hal.waitForNotifierAlarm is Delay.Model.hal_wait."""
-from .pytr import Spec, Shape, HEADER, paren
+`released` (cleanNotifier calls); hal.waitForNotifierAlarm is Delay.Model.hal_wait.
+wait() is also translated in two halves, split at its hal.waitForNotifierAlarm call (class WaitHalves), and proved equal to
+Delay.Model.wait_begin / wait_end: what the second half does with the handle the first half had read, on an object that another
+thread may have released meanwhile."""
+import ast
+
+from .pytr import Spec, Shape, Env, HEADER, paren, txt
 
 ND = ("mkND", [("delay_period", "period", "z"), ("_expiry_time", "expiry", "z"), ("_notifier", "live", "opt"),
                ("__alarm", "alarm", "z"), ("__released", "released", "z")])
@@ -26,6 +31,107 @@ def eff_wait(call, env, spec):
 
 EFFECTS = {"hal.updateNotifierAlarm": eff_update, "hal.stopNotifier": eff_stop, "hal.cleanNotifier": eff_clean,
            "hal.waitForNotifierAlarm": eff_wait}
+
+
+class WaitHalves(Spec):
+    """wait() split at its (one, top-level) hal.waitForNotifierAlarm call, for the two-thread model:
+      gen_wait_begin self              : option bool   -- None: wait() returned before the HAL call; Some h: the call is
+                                                          entered, h = the handle argument seen as "is not None"
+      gen_wait_end self handle now     : nd * Z * bool -- the statements after the HAL call, run on the object as it is when
+                                                          the call returns, with the first half's local variable (the handle
+                                                          it had read) as a parameter; the bool: left by the TypeError of
+                                                          hal.updateNotifierAlarm(None, ..)
+    Fail-closed: a first half that writes the object or keeps any local other than the handle it read is rejected."""
+    HAL_WAIT = "hal.waitForNotifierAlarm"
+    HAL_UPDATE = "hal.updateNotifierAlarm"
+
+    def __init__(self, repo):
+        Spec.__init__(self, repo, PATH, "NotifierDelay", "wait", ND, [], {}, effects=EFFECTS,
+                      siblings={"_update_alarm": 1, "free": 1})
+        self.half = 0
+        self.captured = None
+
+    def fields0(self):
+        return {py: "%s self" % proj for py, proj, _ in self.rec}
+
+    def split(self):
+        f = self.find("wait")
+        if f.args.args[1:]:
+            raise Shape("wait() takes parameters")
+        body = list(f.body)
+        at = [i for i, st in enumerate(body)
+              if isinstance(st, ast.Expr) and isinstance(st.value, ast.Call) and txt(st.value.func) == self.HAL_WAIT]
+        total = sum(1 for n in ast.walk(f) if isinstance(n, ast.Call) and txt(n.func) == self.HAL_WAIT)
+        if len(at) != 1 or total != 1:
+            raise Shape("wait() does not consist of statements, ONE top-level hal.waitForNotifierAlarm(..) call, statements")
+        call = body[at[0]].value
+        if len(call.args) != 1 or call.keywords:
+            raise Shape("hal.waitForNotifierAlarm is not called with one positional argument")
+        return body[:at[0]], call, body[at[0] + 1:]
+
+    def special(self, s, env, go):
+        if self.half == 2 and isinstance(s, ast.Expr) and isinstance(s.value, ast.Call) and txt(s.value.func) == self.HAL_UPDATE:
+            c = s.value
+            if len(c.args) != 2 or c.keywords:
+                raise Shape("hal.updateNotifierAlarm is not called with two positional arguments")
+            h = self.value(c.args[0], env, "opt")
+            t = self.expr(c.args[1], env)
+            e2 = env.copy()
+            # Delay.Model.hal_update: nothing happens on a handle that has been cleaned
+            e2.fields["__alarm"] = "(match %s with O => Some %s | S _ => None end)" % (paren(env.fields["__released"]), t)
+            return "(if %s then %s else %s)" % (h, go(e2), self.emit3(env, "true"))
+        return None
+
+    def emit3(self, env, raised):
+        return "(%s, %s, %s)" % (self.state_term(env), env.locs["__ghost"], raised)
+
+    def begin_term(self):
+        pre, call, _ = self.split()
+        f0 = self.fields0()
+        seen = []
+
+        def at_call(env):
+            if env.fields != f0:
+                raise Shape("the first half of wait() writes the object")
+            seen.append(dict(env.locs))
+            return "(Some %s)" % paren(self.value(call.args[0], env, "opt"))
+
+        def on_ret(env, v):
+            if env.fields != f0:
+                raise Shape("the first half of wait() writes the object")
+            return "None"
+        self.half = 1
+        term = self.run(pre, Env(f0), at_call, on_ret)
+        if not seen or any(x != seen[0] for x in seen):
+            raise Shape("the local variables of wait() at its HAL call depend on the path taken")
+        self.captured = seen[0]
+        return term
+
+    def end_term(self):
+        _, _, post = self.split()
+        self.begin_term()
+        locs = {}
+        for name, term in self.captured.items():
+            if term != "live self":
+                raise Shape("local variable %s of the first half of wait() is not the handle read from self._notifier" % name)
+            locs[name] = "handle"
+        env = Env(self.fields0(), locs)
+        env.locs["__ghost"] = "(hal_wait %s now)" % paren(env.fields["__alarm"])    # hal.waitForNotifierAlarm(..) returns
+        self.half = 2
+        return self.run(post, env, lambda e: self.emit3(e, "false"), lambda e, v: self.emit3(e, "false"))
+
+    def text(self):
+        tac = ("Proof.\n  intros; destruct self; repeat (match goal with x : bool |- _ => destruct x end);\n"
+               "  unfold %s; cbn;\n  repeat match goal with |- context [if ?b then _ else _] => destruct b eqn:? end;\n"
+               "  repeat match goal with |- context [match ?n with O => _ | S _ => _ end] => destruct n end;\n"
+               "  try reflexivity; try (exfalso; lia); try (repeat f_equal; lia).\nQed.\n")
+        return "\n".join([
+            "Definition gen_wait_begin (self : nd) : option bool :=\n  %s." % self.begin_term(),
+            "Lemma src_gen_wait_begin : forall (self : nd), gen_wait_begin self = wait_begin self.",
+            tac % "gen_wait_begin, wait_begin",
+            "Definition gen_wait_end (self : nd) (handle : bool) (now : Z) : nd * Z * bool :=\n  %s." % self.end_term(),
+            "Lemma src_gen_wait_end : forall (self : nd) (handle : bool) (now : Z), gen_wait_end self handle now = wait_end self handle now.",
+            tac % "gen_wait_end, wait_end, hal_update, hal_wait"])
 
 
 def specs(repo):
@@ -61,6 +167,8 @@ def coq(repo):
     for sp in specs(repo):
         L.append(sp.definition("nd"))
         L.append(sp.lemma("nd"))
+    # wait() in its two halves around the HAL call (the two-thread model: a release while a wait() is in progress)
+    L.append(WaitHalves(repo).text())
     return "\n".join(L)
 
 
@@ -77,7 +185,7 @@ def obligation(ctx):
         return False
     ctx.obligation(name, True, "")
     rc, out = ctx.coq_file("Gen_delay", text)
-    ctx.obligation("regen:Gen_delay (NotifierDelay methods translated from the source == Delay.Model create/wait/free/enter/exit_, for all states and inputs)",
+    ctx.obligation("regen:Gen_delay (NotifierDelay methods translated from the source == Delay.Model create/wait/free/enter/exit_ and, wait() split at its HAL call, wait_begin/wait_end, for all states and inputs)",
                    rc == 0, out[-1500:])
     return rc == 0
 
